@@ -10,6 +10,11 @@
 #include <google/protobuf/io/zero_copy_stream_impl_lite.h>
 #include <google/protobuf/stubs/logging.h>
 
+#include <sanitizer/allocator_interface.h>
+#include <signal.h>
+#include <sys/time.h>
+#include <unistd.h>
+
 #include <list>
 #include <memory>
 #include <string>
@@ -33,7 +38,24 @@ namespace pbio = ::google::protobuf::io;
 
 // known findings are excluded from generation by default; VF_ALLOW_KNOWN=1 re-enables all of them,
 // VF_ALLOW_KNOWN=f5,f8 only the named ones
+// A witness file of a known finding starts with the 8 bytes "C11KNOWN": for that one input every
+// known_* exclusion is off, so `<target binary> <witness>` fails on a tree that still has the
+// defect. The prefix is recognised by hash, not by comparison, so that the fuzzer's comparison
+// tracing cannot synthesise it and walk back into the excluded shapes.
+inline bool& witness_mode() {
+  static bool v = false;
+  return v;
+}
+inline void strip_witness_prefix(const uint8_t*& data, size_t& size) {
+  witness_mode() = false;
+  if (size >= 8 && vfz::hash_bytes(data, 8) == 0x696a0fbee7fb7a3fULL) {
+    witness_mode() = true;
+    data += 8;
+    size -= 8;
+  }
+}
 inline bool allow_known(const char* which) {
+  if (witness_mode()) return true;
   const char* e = getenv("VF_ALLOW_KNOWN");
   if (!e || !*e) return false;
   return strcmp(e, "1") == 0 || strstr(e, which) != nullptr;
@@ -43,6 +65,91 @@ inline void quiet_protobuf() {
   static const bool once = (::google::protobuf::SetLogHandler(nullptr), true);
   (void)once;
 }
+
+// Termination oracle. The runner counts libFuzzer's own timeout-/oom- artifacts as load noise, so
+// "the call does not return" must become an oracle failure of its own. Two load-independent
+// detectors guard a call while a Watchdog object lives:
+//  * allocator hooks: one allocation of >= 256 MiB, or more than 2 million allocations, while
+//    parsing an input of at most a few KiB (every element / node costs at least one input byte,
+//    so neither can happen in a parse that makes progress);
+//  * a budget of user-mode CPU time (ITIMER_VIRTUAL: neither wall clock nor kernel time, which
+//    both explode on a loaded machine) far above what any generated case needs, for loops that
+//    spin without allocating.
+// The handlers only use write(2): the interrupted code may hold the allocator lock.
+class Watchdog {
+ public:
+  Watchdog(const std::string& described_case, int cpu_seconds) {
+    static bool installed = false;
+    if (!installed) {
+      installed = true;
+      struct sigaction sa;
+      memset(&sa, 0, sizeof sa);
+      sa.sa_handler = &Watchdog::expired;
+      sigaction(SIGVTALRM, &sa, nullptr);
+      __sanitizer_install_malloc_and_free_hooks(&Watchdog::on_malloc, &Watchdog::on_free);
+    }
+    snprintf(text(), 4096, "CASE: %s\n", described_case.c_str());
+    seconds() = cpu_seconds;
+    allocations() = 0;
+    armed() = true;
+    arm(cpu_seconds);
+  }
+  ~Watchdog() {
+    armed() = false;
+    arm(0);
+  }
+  static constexpr size_t MAX_ALLOCATION = 256u << 20;
+  static constexpr size_t MAX_ALLOCATIONS = 2000000;
+
+ private:
+  static char* text() {
+    static char buf[4096];
+    return buf;
+  }
+  static volatile bool& armed() {
+    static volatile bool v = false;
+    return v;
+  }
+  static int& seconds() {
+    static int v = 0;
+    return v;
+  }
+  static size_t& allocations() {
+    static size_t v = 0;
+    return v;
+  }
+  static void arm(int secs) {
+    struct itimerval t;
+    memset(&t, 0, sizeof t);
+    t.it_value.tv_sec = secs;
+    setitimer(ITIMER_VIRTUAL, &t, nullptr);
+  }
+  [[noreturn]] static void die(const char* what) {
+    armed() = false;
+    char head[256];
+    int n = snprintf(head, sizeof head, "\nORACLE-FAIL: termination: %s\n", what);
+    ssize_t r = write(2, head, (size_t)n);
+    r = write(2, text(), strlen(text()));
+    (void)r;
+    __builtin_trap();
+  }
+  static void expired(int) {
+    if (!armed()) return;
+    char what[128];
+    snprintf(what, sizeof what, "the call did not return within %d s of user CPU time", seconds());
+    die(what);
+  }
+  static void on_malloc(const volatile void*, size_t size) {
+    if (!armed()) return;
+    if (size >= MAX_ALLOCATION) {
+      char what[160];
+      snprintf(what, sizeof what, "no progress: the call asks for one allocation of %zu bytes (input of at most a few KiB)", size);
+      die(what);
+    }
+    if (++allocations() > MAX_ALLOCATIONS) die("no progress: the call made more than 2000000 allocations (input of at most a few KiB)");
+  }
+  static void on_free(const volatile void*) {}
+};
 
 // ---------------------------------------------------------------------------------------------
 // byte presentations
@@ -75,10 +182,11 @@ inline Pattern decode_pattern(vfz::Dec& d) {
 // chunk is an ASan report
 class ChunkedInput : public pbio::ZeroCopyInputStream {
  public:
-  ChunkedInput(const std::string& data, const Pattern& p) : _data(data), _p(p) {}
+  // long inputs get proportionally longer chunks (a few hundred chunks at most per pass)
+  ChunkedInput(const std::string& data, const Pattern& p) : _data(data), _p(p), _scale(1 + (int)(data.size() / 256)) {}
   bool Next(const void** data, int* size) override {
     if (_pos >= _data.size()) return false;
-    int want = _p.sz[_k++ % _p.n];
+    int want = _p.sz[_k++ % _p.n] * _scale;
     size_t n = std::min((size_t)want, _data.size() - _pos);
     _block.reset(new char[n]);
     memcpy(_block.get(), _data.data() + _pos, n);
@@ -93,7 +201,6 @@ class ChunkedInput : public pbio::ZeroCopyInputStream {
     // re-present the tail of the last chunk as the next chunk
     _pos -= (size_t)count;
     _last = 0;
-    if (count > 0) _k += 0;
   }
   bool Skip(int count) override {
     if (count < 0) vfz::fail("stream", "Skip(%d)", count);
@@ -110,6 +217,7 @@ class ChunkedInput : public pbio::ZeroCopyInputStream {
  private:
   const std::string& _data;
   Pattern _p;
+  int _scale;
   size_t _pos = 0;
   unsigned _k = 0;
   int _last = 0;
@@ -118,10 +226,11 @@ class ChunkedInput : public pbio::ZeroCopyInputStream {
 
 class ChunkedOutput : public pbio::ZeroCopyOutputStream {
  public:
+  // blocks grow with the output so that a long encoding takes a few hundred blocks at most
   explicit ChunkedOutput(const Pattern& p) : _p(p) {}
   bool Next(void** data, int* size) override {
     commit();
-    int want = _p.sz[_k++ % _p.n];
+    int want = _p.sz[_k++ % _p.n] * (1 + (int)(_out.size() / 128));
     _block.reset(new char[(size_t)want]);
     memset(_block.get(), 0xCD, (size_t)want);
     _used = want;
@@ -204,20 +313,27 @@ inline const char* out_name(int k) {
                             "serialize_to_coded_stream_with_cached_size(chunked)"};
   return n[k];
 }
-// returns false when babylon reported failure; `predicted` receives calculate_serialized_size
+// returns false when babylon reported failure; `predicted` receives calculate_serialized_size.
+// The two entry points that size the value themselves are called WITHOUT a preceding
+// calculate_serialized_size (the prediction is taken afterwards, from the unmodified object), so
+// whatever the cached sizes hold from earlier use is what they start from.
 template <class T>
 bool serialize_with(int kind, const Pattern& p, const T& v, std::string& bytes, size_t& predicted) {
-  predicted = Serialization::calculate_serialized_size(v);
   switch (kind) {
-    case OUT_STRING:
-      return Serialization::serialize_to_string(v, bytes);
+    case OUT_STRING: {
+      bool ok = Serialization::serialize_to_string(v, bytes);
+      predicted = Serialization::calculate_serialized_size(v);
+      return ok;
+    }
     case OUT_ARRAY_CACHED: {
+      predicted = Serialization::calculate_serialized_size(v);
       std::unique_ptr<char[]> buf(new char[predicted]);  // exact: one byte too many is an ASan report or HadError
       bool ok = Serialization::serialize_to_array_with_cached_size(v, buf.get(), predicted);
       bytes.assign(buf.get(), predicted);
       return ok;
     }
     default: {
+      if (kind == OUT_STREAM_CACHED) predicted = Serialization::calculate_serialized_size(v);
       ChunkedOutput out(p);
       bool ok;
       {
@@ -228,6 +344,7 @@ bool serialize_with(int kind, const Pattern& p, const T& v, std::string& bytes, 
         ok = ok && !cos.HadError();
       }
       bytes = out.finish();
+      if (kind == OUT_STREAM) predicted = Serialization::calculate_serialized_size(v);
       return ok;
     }
   }
@@ -276,6 +393,89 @@ template <class A> struct f5_reserves<std::vector<double, A>> : std::true_type {
 template <class T> struct f5_reserves<std::unique_ptr<T>> : f5_reserves<T> {};
 template <class T> struct f5_reserves<std::shared_ptr<T>> : f5_reserves<T> {};
 
+// ... also below the root: does the parser of T reach a std::vector<float/double>
+template <class T> constexpr bool f5_reserve_reach();
+template <class Tuple, size_t... I>
+constexpr bool f5_reserve_reach_tuple(std::index_sequence<I...>) {
+  return (f5_reserve_reach<typename std::remove_cv<typename std::remove_reference<typename std::tuple_element<I, Tuple>::type>::type>::type>() || ...);
+}
+template <class T>
+constexpr bool f5_reserve_reach() {
+  if constexpr (f5_reserves<T>::value) {
+    return true;
+  } else if constexpr (is_seq<T>::value || is_set<T>::value) {
+    return f5_reserve_reach<typename T::value_type>();
+  } else if constexpr (is_map<T>::value) {
+    return f5_reserve_reach<typename T::key_type>() || f5_reserve_reach<typename T::mapped_type>();
+  } else if constexpr (is_ptr<T>::value) {
+    return f5_reserve_reach<typename std::remove_const<typename T::element_type>::type>();
+  } else if constexpr (std::is_array<T>::value) {
+    return f5_reserve_reach<typename std::remove_extent<T>::type>();
+  } else if constexpr (Aggregate<T>) {
+    using Tuple = decltype(std::declval<T&>().vf_tie());
+    return f5_reserve_reach_tuple<Tuple>(std::make_index_sequence<std::tuple_size<Tuple>::value>());
+  } else {
+    return false;
+  }
+}
+
+// F9: does the parser of T reach a std::vector / list / unordered_set / unordered_map /
+// ReusableVector whose elements (keys, values) are length-delimited (see known_f9 in c11_hostile.cpp)
+template <class T> constexpr bool f9_reach();
+template <class Tuple, size_t... I>
+constexpr bool f9_reach_tuple(std::index_sequence<I...>) {
+  return (f9_reach<typename std::remove_cv<typename std::remove_reference<typename std::tuple_element<I, Tuple>::type>::type>::type>() || ...);
+}
+template <class T>
+constexpr bool f9_reach() {
+  if constexpr (is_seq<T>::value || is_set<T>::value) {
+    using E = typename T::value_type;
+    return is_ld<E>::value || f9_reach<E>();
+  } else if constexpr (is_map<T>::value) {
+    using K = typename T::key_type;
+    using V = typename T::mapped_type;
+    return is_ld<K>::value || is_ld<V>::value || f9_reach<K>() || f9_reach<V>();
+  } else if constexpr (is_ptr<T>::value) {
+    return f9_reach<typename std::remove_const<typename T::element_type>::type>();
+  } else if constexpr (std::is_array<T>::value) {
+    return f9_reach<typename std::remove_extent<T>::type>();
+  } else if constexpr (Aggregate<T>) {
+    using Tuple = decltype(std::declval<T&>().vf_tie());
+    return f9_reach_tuple<Tuple>(std::make_index_sequence<std::tuple_size<Tuple>::value>());
+  } else {
+    return false;
+  }
+}
+
+// ... the subset whose loop condition is BytesUntilLimit() > 0: std::vector / ReusableVector of
+// elements whose parse can succeed without consuming anything at the end of the data
+// (length-delimited elements: unreadable length taken as 0; smart pointers: nothing to read)
+template <class T> constexpr bool f9_vector_reach();
+template <class Tuple, size_t... I>
+constexpr bool f9_vector_reach_tuple(std::index_sequence<I...>) {
+  return (f9_vector_reach<typename std::remove_cv<typename std::remove_reference<typename std::tuple_element<I, Tuple>::type>::type>::type>() || ...);
+}
+template <class T>
+constexpr bool f9_vector_reach() {
+  if constexpr (is_seq<T>::value) {
+    using E = typename T::value_type;
+    return (f5_affected<T>::value && (is_ld<E>::value || is_ptr<E>::value)) || f9_vector_reach<E>();
+  } else if constexpr (is_set<T>::value) {
+    return f9_vector_reach<typename T::value_type>();
+  } else if constexpr (is_map<T>::value) {
+    return f9_vector_reach<typename T::key_type>() || f9_vector_reach<typename T::mapped_type>();
+  } else if constexpr (is_ptr<T>::value) {
+    return f9_vector_reach<typename std::remove_const<typename T::element_type>::type>();
+  } else if constexpr (std::is_array<T>::value) {
+    return f9_vector_reach<typename std::remove_extent<T>::type>();
+  } else if constexpr (Aggregate<T>) {
+    using Tuple = decltype(std::declval<T&>().vf_tie());
+    return f9_vector_reach_tuple<Tuple>(std::make_index_sequence<std::tuple_size<Tuple>::value>());
+  } else {
+    return false;
+  }
+}
+
 // enumeration without a fixed underlying type: only its declared values are generated
 enum PlainEnum { PE_ZERO = 0, PE_ONE = 1, PE_NEG = -3, PE_BIG = 70000 };
 inline std::vector<PlainEnum> vf_enum_values(PlainEnum*) { return {PE_ZERO, PE_ONE, PE_NEG, PE_BIG}; }
@@ -290,7 +490,7 @@ enum Kind { K_BOOL, K_INT, K_FLOAT, K_ENUM, K_STR, K_SEQ, K_VBOOL, K_ARRAY, K_SE
 struct Gen {
   vfz::Dec& d;
   int depth = 0;          // aggregate / container nesting of the value being generated
-  size_t budget = 50000;  // bytes that the amplified (repeated) payloads may still use
+  size_t budget = 40000;  // bytes that the amplified (repeated) payloads may still use
   unsigned kinds = 0;     // Kind bits that carry a non-default value
   bool nested_ld = false; // a non-empty length-delimited value below the root
   bool scalar_ptr_elem_null = false;  // generated a null smart pointer to a scalar as a container / array element
@@ -338,14 +538,17 @@ F gen_float(Gen& g) {
 // arbitrary bytes; sometimes a long run so that length prefixes need 2 and 3 varint bytes
 inline std::string gen_bytes(Gen& g) {
   uint8_t sel = g.d.u8();
-  switch (sel % 5) {
+  switch (sel % 8) {
     case 0: return std::string();
     case 1:
-    case 2: return g.d.bytes(10);
-    case 3: return std::string(1 + (sel >> 3) % 4, (char)g.d.u8());
+    case 2:
+    case 3:
+    case 4: return g.d.bytes(10);
+    case 5:
+    case 6: return std::string(1 + (sel >> 3) % 4, (char)g.d.u8());
     default: {
-      static const uint32_t L[] = {127, 128, 129, 300, 16383, 16384, 16390, 2000};
-      size_t n = std::min<size_t>(L[(sel >> 3) % 8], g.budget);
+      static const uint32_t L[] = {127, 128, 129, 300, 126, 130, 2000, 16383, 16384, 16390, 200, 255, 256, 1000, 131, 125};
+      size_t n = std::min<size_t>(L[(sel >> 3) % 16], g.budget);
       g.budget -= n;
       return std::string(n, (char)g.d.u8());
     }
@@ -354,9 +557,9 @@ inline std::string gen_bytes(Gen& g) {
 // element count of a container; big counts only for cheap elements
 inline size_t gen_count(Gen& g, bool cheap) {
   uint8_t sel = g.d.u8();
-  if (sel % 8 < 6 || !cheap) return sel % 4;  // 0..3 (0 first: the all-zero input is the empty container)
-  static const uint32_t L[] = {16, 127, 128, 129, 600, 4100, 16384, 33};
-  size_t n = std::min<size_t>(L[(sel >> 3) % 8], g.budget / 2);
+  if (sel % 16 < 14 || !cheap) return sel % 4;  // 0..3 (0 first: the all-zero input is the empty container)
+  static const uint32_t L[] = {16, 127, 128, 129, 600, 33, 64, 130, 4100, 16384, 20, 126, 40, 17, 250, 300};
+  size_t n = std::min<size_t>(L[(sel >> 4) % 16], g.budget / 2);
   g.budget -= n * 2;
   return n;
 }
